@@ -1,4 +1,4 @@
-import Hls.Muxer.TimeTs
+import Hls.Muxer.TimeInit
 /-!
 # C02 — Segments start on random access, respect the minimum duration, are cut on a parameter change
 
@@ -213,5 +213,84 @@ theorem c02_cut_together {cfg : Cfg} {st0 : State} (h0 : start cfg = .ok st0) (o
     simpa [List.map_map, Seg.key, Function.comp_def] using this
   · have := congrArg (Option.map (fun k : Int × Int × List (Int × Int) => (k.1, k.2.1))) hk.opn
     simpa [Option.map_map, Seg.okey, Function.comp_def] using this
+
+/-- **The init segment declares exactly the stream's tracks**: in every reachable state, whatever is registered
+under a stream's init path is an init handler with one entry per track of that stream (rendered by the driver as track
+ids 1…n with the codec's fMP4 time scale); the stream's track list never changes. -/
+theorem c02_init_tracks {cfg : Cfg} {st0 : State} (h0 : start cfg = .ok st0) (ops : List WriteOp) (si : Nat) (h : Handler)
+    (hreg : lookupPath (run st0 ops).paths (.init si) = some h) :
+    ∃ ps, h = .init ps ∧ ps.length = ((run st0 ops).stream si).tracks.length ∧
+      ((run st0 ops).stream si).tracks = (st0.stream si).tracks ∧ Hls.Muxer.get (run st0 ops) (.init si) = .init ps := by
+  obtain ⟨ps, e, hl⟩ := reach_InitOK h0 ops si h hreg
+  refine ⟨ps, e, hl, reach_tracks h0 ops si, ?_⟩
+  unfold Hls.Muxer.get; rw [hreg, e]
+
+/-- **The init is regenerated after a parameter change** (per stream, any state of an fMP4-variant muxer): when
+stream `si` is rotated while its open segment was opened by a forced rotation (or no init exists yet), the init
+registered in that step is built from the parameters its tracks have at that moment — i.e. the first complete segment
+encoded with changed parameters is listed together with an init carrying the new parameters. -/
+theorem c02_init_after_change (st : State) (si : Nat) (hl : si < st.streams.length) (hv : st.cfg.variant ≠ .mpegts)
+    (o : Seg) (p : Part) (ho : (st.stream si).nextSegment = some o) (hp : (st.stream si).nextPart = some p)
+    (hf : (st.stream si).initPresent = false ∨ o.forced = true) (d n : Int) (f : Bool) :
+    lookupPath (rotateSegmentsStream st si d n f).paths (.init si) =
+      some (.init ((st.stream si).tracks.map fun t => (st.track t).params)) ∧
+    ∀ sj, sj ≠ si → lookupPath (rotateSegmentsStream st si d n f).paths (.init sj) = lookupPath st.paths (.init sj) :=
+  ⟨rss_init hl hv ho hp hf d n f, fun sj hne => rss_init_other st sj si d n f hne⟩
+
+/-- the same for a whole-muxer rotation in a reachable state, leading stream -/
+theorem c02_init_after_change_lead {cfg : Cfg} {st0 : State} (h0 : start cfg = .ok st0) (hv : cfg.variant ≠ .mpegts)
+    (ops : List WriteOp) (o : Seg) (p : Part)
+    (ho : ((run st0 ops).stream (leadStream st0)).nextSegment = some o)
+    (hp : ((run st0 ops).stream (leadStream st0)).nextPart = some p)
+    (hf : ((run st0 ops).stream (leadStream st0)).initPresent = false ∨ o.forced = true) (d n : Int) (f : Bool) :
+    lookupPath (rotateSegments (run st0 ops) d n f).paths (.init (leadStream st0)) =
+      some (.init (((run st0 ops).stream (leadStream st0)).tracks.map fun t => ((run st0 ops).track t).params)) :=
+  rotateSegments_init_lead (reach_GI h0 ops) (leadStream_fmp4 h0 hv ops).1 ho hp hf d n f
+
+/-! ## Non-vacuity: a concrete Low-Latency muxer (H264 + AAC), rotations, a parameter change on an IDR -/
+
+def exCfg : Cfg :=
+  { variant := .ll, segmentCount := 7, segmentMinDur := 1000000000, partMinDur := 200000000, segmentMaxSize := 1000000,
+    tracks := [{ codec := .h264, clockRate := 90000 }, { codec := .aac, clockRate := 48000, sampleRate := 48000 }] }
+def vop (i : Nat) (ra : Bool) (par : Nat) : WriteOp :=
+  { track := 0, pts := 45000 * i, dts := 45000 * i, ntp := 1600000000000000000 + 500000000 * i, ra := ra, par := par,
+    pays := [i], sizes := [100] }
+def aop (i : Nat) : WriteOp :=
+  { track := 1, pts := 24000 * i, dts := 24000 * i, ntp := 1600000000000000000 + 500000000 * i, ra := true,
+    pays := [1000 + i], sizes := [10] }
+/-- IDRs at 0 s and 1 s (cut: minimum duration reached), IDR with changed parameters at 2 s, … -/
+def exOps : List WriteOp :=
+  [vop 0 true 1, aop 0, vop 1 false 0, aop 1, vop 2 true 0, aop 2, vop 3 false 0, aop 3]
+def exMore : List WriteOp := [vop 4 true 2, aop 4, vop 5 false 0, vop 6 true 0, vop 7 true 0, vop 8 false 0]
+def exSt0 : State := startState exCfg.withDefaults
+
+theorem exStart : start exCfg = .ok exSt0 := rfl
+
+/-- the state after the first eight writes (two listed segments, no change pending) -/
+def exSt : State := run exSt0 exOps
+
+set_option maxRecDepth 100000 in
+/-- hypothesis of `c02_segment_starts_ra` / `C03.c03_first_unit` -/
+example : leadStream exSt0 = 0 ∧ WFRun 0 exSt0 (exOps ++ exMore) := by decide
+
+set_option maxRecDepth 100000 in
+/-- hypotheses of `c02_cut_iff_due` for the IDR at 2 s that carries new parameters: accepted, look-ahead filled,
+succeeds, `changedOf`; the cut happens although only 1 s … and a parameter change on a non-IDR unit stays pending -/
+example : Accepted exSt (vop 4 true 2) ∧ (exSt.track 0).next.isSome ∧ (write exSt (vop 4 true 2)).2 = .ok ∧
+    changedOf exSt (vop 4 true 2) = true ∧
+    ((write exSt (vop 4 true 2)).1.stream 0).nextSegmentID = (exSt.stream 0).nextSegmentID + 1 ∧
+    exSt.pending = false ∧ (write exSt (vop 3 false 2)).1.pending = true := by decide
+
+set_option maxRecDepth 100000 in
+/-- after the whole run: three real segments, the last one opened by the forced rotation; both streams have the
+same counter.  Hypotheses of `c02_init_after_change`: just before the IDR at 3 s the open segment of stream 0 is the
+one opened by the forced rotation (`forced`), an open part exists, and the track's current parameter id is 2 — so the
+init registered by that rotation is `.init [2]`. -/
+example : (listed (run exSt exMore) 0).map (fun g => (g.id, g.forced)) = [(7, false), (8, false), (9, true)] ∧
+    ((run exSt exMore).stream 0).nextSegmentID = 10 ∧ ((run exSt exMore).stream 1).nextSegmentID = 10 ∧
+    (match ((run exSt (exMore.take 3)).stream 0).nextSegment with | some o => o.forced | none => false) = true ∧
+    ((run exSt (exMore.take 3)).stream 0).nextPart.isSome = true ∧
+    ((run exSt (exMore.take 3)).stream 0).tracks.map (fun t => ((run exSt (exMore.take 3)).track t).params) = [2] := by
+  decide
 
 end Hls.Props.C02
